@@ -26,6 +26,23 @@ def gx_dump(grid):
     return {"jit": g["jit"], "vol": g["vol"], "ratio": C.edge_ratio(grid)}
 
 
+def designed_group(grid, kinds, rng, tries=60):
+    """Designed (non-prefix, non-unit-multiplier) options for several spaces whose COMMON support is non-empty, not a leading
+    block, and whose integration elements differ from those of the leading block of the same length."""
+    ie = grid.integration_elements
+    for _ in range(tries):
+        got = [C.designed_opts(grid, k, rng) for k in kinds]
+        common = np.ones(grid.number_of_elements, dtype=bool)
+        for _, sp in got:
+            common &= sp.support
+        idx = np.flatnonzero(common)
+        n = len(idx)
+        if n == 0 or np.all(common[:n]) or np.allclose(ie[idx], ie[:n], rtol=1e-3):
+            continue
+        return [o for o, _ in got]
+    raise RuntimeError("no designed group")
+
+
 def tol_of(m):
     return C.dy(max(1e-11 * float(np.abs(m).max()) if np.size(m) else 0.0, 1e-13))
 
@@ -42,7 +59,7 @@ def run_corr(cfg):
     n = 20 if strength == "quick" else 90
     for i in range(n):
         gname = grids[i % len(grids)]
-        grid = C.make_grid(gname, rng, distorted=bool(i % 2))
+        grid = C.make_grid(gname, rng, distorted=bool(i % 2), jitter=bool(i % 2))
         tk = kinds[i % 5]
         if i % 4 == 3:
             tk, rk, opn = "P1", "P1", 1
@@ -53,6 +70,12 @@ def run_corr(cfg):
         full = rng.integers(0, 3) == 0
         topt = {} if full else C.random_space_opts(grid, tk, rng)
         ropt = {} if full else C.random_space_opts(grid, rk, rng)
+        if i % 2 == 1 and grid.number_of_elements >= 6:
+            # deterministic share of designed cases: common support not a leading block, areas differ, multipliers not all 1
+            try:
+                topt, ropt = designed_group(grid, [tk, rk], rng)
+            except RuntimeError:
+                pass
         # GridFunction / sparse operators require equal normal multipliers on both spaces: use the same flag
         sw = topt.get("swapped_normals")
         topt.pop("swapped_normals", None)
@@ -97,10 +120,16 @@ def run_corr(cfg):
     n = 14 if strength == "quick" else 60
     for i in range(n):
         gname = grids[(i + 1) % len(grids)]
-        grid = C.make_grid(gname, rng, distorted=bool((i + 1) % 2))
+        designed = i % 2 == 1 or i < 5        # non-prefix support, non-uniform areas (every kind at least once)
+        if designed and gname in ("two", "screen21"):
+            gname = "screen22"
+        grid = C.make_grid(gname, rng, distorted=True, jitter=designed or bool(i % 3))
         kind = kinds[i % 5]
-        opts = {} if i % 3 == 0 else C.random_space_opts(grid, kind, rng)
         try:
+            if designed:
+                opts, sp = C.designed_opts(grid, kind, rng)
+            else:
+                opts = {} if i % 3 == 0 else C.random_space_opts(grid, kind, rng)
             sp = C.make_space(grid, kind, opts)
         except Exception as e:
             out["errors"].append({"where": "space", "error": repr(e)})
@@ -119,6 +148,26 @@ def run_corr(cfg):
             verts = gf.evaluate_on_vertices()
             gfp = api.GridFunction(sp, fun=fun)
             proj = gfp.projections()
+            # vectorised flavour (real and complex): record the function_data the library hands to
+            # _project_function_vectorized, by position in the support and number of the quadrature point
+            captured = {}
+
+            def vfun(x, n, dom, res):
+                if dim == 1:
+                    res[0, :] = 0.5 + x[0] - 2.0 * x[1] * x[2] + 0.25 * n[2] + dom
+                else:
+                    res[0, :] = 0.5 + x[0] - 2.0 * x[1] * x[2]
+                    res[1, :] = n[0] + 0.25 * x[2] + dom
+                    res[2, :] = x[0] * x[1] - 0.125
+                captured["re"] = np.array(res)
+
+            def vfunc(x, n, dom, res):
+                tmp = np.zeros((dim, x.shape[1]))
+                vfun(x, n, dom, tmp)
+                res[:, :] = tmp * (1.0 - 0.5j) + 0.25j * x[1]
+                captured["c"] = np.array(res)
+            projv = api.GridFunction(sp, fun=api.callable(vfun, vectorized=True)).projections()
+            projc = api.GridFunction(sp, fun=api.callable(vfunc, vectorized=True, complex=True)).projections()
         except Exception as e:
             out["errors"].append({"where": "gridfun", "spec": [gname, kind, opts], "error": repr(e)})
             continue
@@ -142,9 +191,22 @@ def run_corr(cfg):
                     res[2] = x[0] * x[1] - 0.125
                 row.append(C.dyl(res))
             ftab.append(row)
-        scale = max(float(np.abs(proj).max()), float(np.abs(integ).max()), float(np.abs(verts).max()), 1e-3)
+        npts = pts.shape[1]
+        nsup = int(sp.number_of_support_elements)
+
+        def fdata(arr):
+            return [[C.dyl(arr[:, pos * npts + k]) for k in range(npts)] for pos in range(nsup)]
+        scale = max(float(np.abs(proj).max()), float(np.abs(integ).max()), float(np.abs(verts).max()),
+                    float(np.abs(projc).max()), 1e-3)
+        sup = np.flatnonzero(sp.support)
         out["gridfun"].append({
-            "spec": {"grid": gname, "space": [kind, opts], "order": order},
+            "spec": {"grid": gname, "space": [kind, opts], "order": order, "designed_non_prefix_non_uniform": bool(designed),
+                     "non_prefix": bool(not np.all(sp.support[:nsup])),
+                     "areas_differ_from_leading_block": bool(not np.allclose(
+                         grid.integration_elements[sup], grid.integration_elements[:nsup], rtol=1e-3))},
+            "fdata_re": fdata(captured["re"]), "projv_re": C.dyl(projv),
+            "fdata_im": fdata(np.imag(captured["c"])), "projv_im": C.dyl(np.imag(projc)),
+            "projc_re_consistent": bool(np.allclose(np.real(projc), projv, rtol=1e-12, atol=1e-14)),
             "grid": C.dump_grid(grid), "gx": gx_dump(grid), "space": C.dump_space(sp, kind), "kind": BASIS_KIND[kind],
             "rule": C.rule_dump(order), "coef": C.dyl(gf.grid_coefficients), "ftab": ftab,
             "nvert": int(grid.number_of_vertices), "proj": C.dyl(proj), "int": C.dyl(integ),
@@ -155,8 +217,8 @@ def run_corr(cfg):
     n = 7 if strength == "quick" else 24
     sc, vec = ["DP0", "DP1", "P1"], ["RWG", "SNC"]
     for i in range(n):
-        gname = ["octa", "screen22", "tetra", "screen31", "two"][i % 5]
-        grid = C.make_grid(gname, rng, distorted=True)
+        gname = ["octa", "screen22", "cube", "screen31", "octa3"][i % 5]
+        grid = C.make_grid(gname, rng, distorted=True, jitter=True)
         kindsel = i % 7
         if kindsel in (0, 1, 2):
             mode, tk, rk, fk = "component", sc[i % 3], sc[(i + 1) % 3], sc[(i + 2) % 3]
@@ -167,6 +229,11 @@ def run_corr(cfg):
         opts = [{} if i in (0, 3) else C.random_space_opts(grid, k, rng) for k in (tk, rk, fk)]
         for o in opts:
             o.pop("swapped_normals", None)
+        if i not in (0, 3) and grid.number_of_elements >= 6:
+            try:
+                opts = designed_group(grid, [tk, rk, fk], rng)
+            except RuntimeError:
+                pass
         try:
             st, sr, sf = [C.make_space(grid, k, o) for k, o in zip((tk, rk, fk), opts)]
             C.set_orders(2, 2)
@@ -217,6 +284,132 @@ def exact_p1_mass(grid, space):
                 m[space.local2global[e, i], space.local2global[e, j]] += \
                     (a / 6 if i == j else a / 12) * space.local_multipliers[e, i] * space.local_multipliers[e, j]
     return m
+
+
+def flavour_matrix(api, grid, sp, kind, cname, rng, note, fails):
+    """Every callable flavour (jit / non-jit / vectorised / parameterised, real and complex) must produce the projections
+    obtained by direct quadrature of the callable against space.evaluate, and the same integrate() / l2_norm()."""
+    from bempp_cl.api.integration.triangle_gauss import rule
+    order = 4
+    C.set_orders(order, 2)
+    pts, wts = rule(order)
+    dim = 1 if C.SHAPE_ID[kind] != 2 else 3
+    par = np.array([0.75, -1.5])
+
+    # the reference function (polynomial in x, n, domain index); component c is shifted by c
+    def val(x, n, d, c, p0, p1):
+        return p0 + x[0] - p1 * x[1] * x[2] + 0.25 * n[2] + 0.125 * d + c
+
+    d3 = dim
+
+    def f_real(x, n, d, res):
+        for c in range(d3):
+            res[c] = 0.75 + x[0] + 1.5 * x[1] * x[2] + 0.25 * n[2] + 0.125 * d + c
+
+    def f_cplx(x, n, d, res):
+        for c in range(d3):
+            res[c] = (0.75 + x[0] + 1.5 * x[1] * x[2] + 0.25 * n[2] + 0.125 * d + c) * (1.0 - 0.5j) + 0.25j * x[1]
+
+    def f_real_par(x, n, d, res, p):
+        for c in range(d3):
+            res[c] = p[0] + x[0] - p[1] * x[1] * x[2] + 0.25 * n[2] + 0.125 * d + c
+
+    def f_cplx_par(x, n, d, res, p):
+        for c in range(d3):
+            res[c] = (p[0] + x[0] - p[1] * x[1] * x[2] + 0.25 * n[2] + 0.125 * d + c) * (1.0 - 0.5j) + 0.25j * x[1]
+
+    def v_real(x, n, d, res):
+        for c in range(d3):
+            res[c, :] = 0.75 + x[0] + 1.5 * x[1] * x[2] + 0.25 * n[2] + 0.125 * d + c
+
+    def v_cplx(x, n, d, res):
+        for c in range(d3):
+            res[c, :] = (0.75 + x[0] + 1.5 * x[1] * x[2] + 0.25 * n[2] + 0.125 * d + c) * (1.0 - 0.5j) + 0.25j * x[1]
+
+    def v_real_par(x, n, d, res, p):
+        for c in range(d3):
+            res[c, :] = p[0] + x[0] - p[1] * x[1] * x[2] + 0.25 * n[2] + 0.125 * d + c
+
+    def v_cplx_par(x, n, d, res, p):
+        for c in range(d3):
+            res[c, :] = (p[0] + x[0] - p[1] * x[1] * x[2] + 0.25 * n[2] + 0.125 * d + c) * (1.0 - 0.5j) + 0.25j * x[1]
+
+    key = (dim,)
+    cache = flavour_matrix.cache
+    if key not in cache:       # the wrappers are compiled once per codomain dimension
+        cache[key] = [
+            ("jit_real", api.callable(f_real, jit=True), None, False),
+            ("jit_complex", api.callable(f_cplx, complex=True, jit=True), None, True),
+            ("jit_parameterized_real", api.callable(f_real_par, jit=True, parameterized=True), par, False),
+            ("jit_parameterized_complex", api.callable(f_cplx_par, complex=True, jit=True, parameterized=True), par, True),
+        ("nonjit_real", api.callable(f_real, jit=False), None, False),
+        ("nonjit_complex", api.callable(f_cplx, complex=True, jit=False), None, True),
+        ("nonjit_parameterized_real", api.callable(f_real_par, jit=False, parameterized=True), par, False),
+        ("vectorized_real", api.callable(v_real, vectorized=True), None, False),
+        ("vectorized_complex", api.callable(v_cplx, vectorized=True, complex=True), None, True),
+        ("vectorized_parameterized_real", api.callable(v_real_par, vectorized=True, parameterized=True), par, False),
+        ("vectorized_parameterized_complex",
+         api.callable(v_cplx_par, vectorized=True, complex=True, parameterized=True), par, True)]
+    flavours = cache[key]
+    # direct quadrature of the reference function against the basis
+    d = grid.data("double")
+    ref = np.zeros(sp.global_dof_count, dtype=complex)
+    for e in sp.support_elements:
+        ev = sp.evaluate(e, pts)
+        v = [d.vertices[:, d.elements[k, e]] for k in range(3)]
+        nrm = d.normals[e] * sp.normal_multipliers[e]
+        for q in range(pts.shape[1]):
+            x = (1.0 - pts[0, q] - pts[1, q]) * v[0] + pts[0, q] * v[1] + pts[1, q] * v[2]
+            base = np.array([0.75 + x[0] + 1.5 * x[1] * x[2] + 0.25 * nrm[2] + 0.125 * d.domain_indices[e] + c
+                             for c in range(dim)])
+            fc = base * (1.0 - 0.5j) + 0.25j * x[1]
+            for i in range(sp.number_of_shape_functions):
+                ref[sp.local2global[e, i]] += (ev[:, i, q] * (base + 1j * (fc.imag))).sum() * wts[q] * \
+                    grid.integration_elements[e]
+    # ref.real = projection of the real function, ref.imag = imaginary part of the projection of the complex function
+    scale = max(float(np.abs(ref).max()), 1e-3)
+    base_int = base_l2 = None
+    for fname, fun, p, cplx in flavours:
+        try:
+            g = api.GridFunction(sp, fun=fun, function_parameters=p)
+            pr = np.asarray(g.projections())
+        except Exception as e:
+            fails.append({"signature": "C13:projection raises %s (%s, %s)" % (type(e).__name__, kind, fname),
+                          "what": repr(e), "data": {"kind": kind, "support": cname}})
+            continue
+        # complex function = real*(1-0.5j) + 0.25j*x1 ; ref.imag holds the projection of its imaginary part
+        want = (ref.real + 1j * ref.imag) if cplx else ref.real
+        err = float(np.abs(pr - want).max()) / scale
+        note("flavour_projection_%s" % fname, err)
+        if not err <= 1e-11:
+            fails.append({"signature": "C13:projections of a %s callable differ from direct quadrature (%s support)" % (
+                fname.split("_")[0], "restricted" if cname != "whole" else "whole-grid"),
+                "what": "%s callable, %s on %s: relative error %.3e" % (fname, kind, cname, err),
+                "data": {"kind": kind, "support": cname, "flavour": fname, "err": err}})
+        # integrate / l2_norm of the projected function agree between flavours (real ones with real, complex with complex)
+        try:
+            gi, gl = np.atleast_1d(g.integrate()), g.l2_norm()
+        except Exception as e:
+            fails.append({"signature": "C13:integrate/l2_norm raises %s (%s, %s)" % (type(e).__name__, kind, fname),
+                          "what": repr(e), "data": {"kind": kind, "support": cname}})
+            continue
+        slot = 1 if cplx else 0
+        if flavour_matrix.refs.get((id(sp), slot)) is None:
+            flavour_matrix.refs[(id(sp), slot)] = (gi, gl, fname)
+        ri, rl, rname = flavour_matrix.refs[(id(sp), slot)]
+        e1 = float(np.abs(gi - ri).max()) / max(float(np.abs(ri).max()), 1e-3)
+        e2 = abs(gl - rl) / max(abs(rl), 1e-3)
+        note("flavour_integrate_l2norm", max(e1, e2))
+        if not max(e1, e2) <= 1e-9:
+            fails.append({"signature": "C13:integrate/l2_norm differ between callable flavours (%s vs %s)" % (
+                fname.split("_")[0], rname.split("_")[0]),
+                "what": "%s on %s: integrate %.3e, l2_norm %.3e relative difference (%s vs %s)" % (
+                    kind, cname, e1, e2, fname, rname), "data": {"kind": kind, "support": cname}})
+    flavour_matrix.refs.clear()
+
+
+flavour_matrix.cache = {}
+flavour_matrix.refs = {}
 
 
 def run_search(cfg):
@@ -296,22 +489,31 @@ def run_search(cfg):
                               "what": "order dependence %.3e, min eig %.3e" % (err, ev.min()), "data": {"grid": gname}})
 
     # --- grid functions ------------------------------------------------------------------------------------------
-    nrep = 2 if strength == "quick" else 8
+    nrep = 1 if strength == "quick" else 4
+    gf_grids = ["cube", "screen22", "octa", "twocomp"]
     for rep in range(nrep):
-        gname = grids[(rep + seed) % len(grids)]
-        grid0 = C.make_grid(gname, rng, distorted=True)
-        nel = grid0.number_of_elements
-        # every element its own domain index so that a callable can know the element it is evaluated on
-        grid = C.make_grid(gname, rng, distorted=True, domains=list(range(nel)))
+        gname = gf_grids[(rep + seed) % len(gf_grids)]
+        nel = C.make_grid(gname, rng).number_of_elements
+        # non-uniform areas (affine distortion + per-vertex jitter); every element its own domain index so that a
+        # callable can know the element it is evaluated on and a segment is a list of element numbers
+        grid = C.make_grid(gname, rng, distorted=True, domains=list(range(nel)), jitter=True)
         verts, els = grid.vertices, grid.elements
+        configs = []
         for kind in ("DP0", "DP1", "P1", "RWG", "SNC"):
-            mode = rep % 2
-            opts = {} if (mode == 0 or kind in ("RWG", "SNC", "P1")) else \
-                {"support_elements": sorted(int(x) for x in rng.choice(nel, size=max(2, nel // 2), replace=False))}
+            _, dsp = C.designed_opts(grid, kind, rng)
+            sel = sorted(int(x) for x in np.flatnonzero(dsp.support))
+            flags = {"include_boundary_dofs": True} if kind in ("P1", "RWG", "SNC") else {}
+            configs.append((kind, "whole", dict(flags)))
+            configs.append((kind, "segments", dict(flags, segments=sel)))                     # non-prefix segment
+            _, dsp2 = C.designed_opts(grid, kind, rng, avoid=dsp.support)
+            configs.append((kind, "support_elements",
+                            dict(flags, support_elements=sorted(int(x) for x in np.flatnonzero(dsp2.support)))))
+        for kind, cname, opts in configs:
             sp = C.make_space(grid, kind, opts)
             if not C.space_has_dofs(sp):
                 out["skipped"] += 1
                 continue
+            flavour_matrix(api, grid, sp, kind, cname, rng, note, fails)
             order = int(rng.choice([2, 3, 4, 6, 9, 13, 17, 20]))
             C.set_orders(order, 2)
             for cplx in (False, True):
